@@ -892,6 +892,14 @@ def snapshot_replay(case):
             for l in io.get("latest", []):
                 if not l["ok"]:
                     return [dict(step=idx, what="latest-is-not-full-replay", detail=dict(cmd=strip(ln), latest=l))]
+        if ln.get("k") == "store" and isinstance(io.get("userVers"), dict):
+            for k2, ver in io["userVers"].items():
+                if ver is None:
+                    continue
+                kk = ("uv", k2)
+                if ver < last_ver.get(kk, 0):
+                    return [dict(step=idx, what="user-document-version-decreased", detail=dict(key=k2, ver=ver, before=last_ver[kk]))]
+                last_ver[kk] = ver
         if ln.get("k") == "store" and isinstance(io.get("store"), dict):
             for u in io["store"].get("userDocs", []):
                 k = (u["col"], u["key"])
